@@ -5,11 +5,10 @@
                  (run_chain_end_closes)
    lazy          ... and, the events arriving in the order of their END offset, the
                  smallest such end: the shortest occurrence (chain_lazy_shortest)
-   greedy        every end is a closing end, and a reported end never shrinks
-                 (MatchList::add compares in both arms since commit a09b6a08; before, "the
-                 longest" was refuted by the trace of /hh.*qq(aqqb)?/s on "hh_qqaqqb").
-                 That it is the LARGEST closing end is not proved here: it needs every
-                 closing event to re-report the start during its walk. *)
+   greedy        ... the LARGEST such end, whatever the order the kernels deliver the events in
+                 (ChainCompleteProofs.chain_greedy_longest; chain_greedy_end_choice_all_ends
+                 here).  True since commit a09b6a08 (MatchList::add compares in both arms);
+                 before, it was refuted by the trace of /hh.*qq(aqqb)?/s on "hh_qqaqqb". *)
 From Coq Require Import List NArith Bool Arith Lia Sorted.
 From YV Require Import Pat.Syntax Pat.Sem Pat.Matcher Pat.MatcherProofs Pat.Modifiers Pat.MatchList Pat.MatchListProofs
                        Pat.Chain Pat.ChainProofs Pat.ChainRun Pat.ChainRunProofs Pat.ChainCompleteProofs.
@@ -222,6 +221,46 @@ Proof.
         inversion Hp. reflexivity.
     - apply (ae_ordered nc c d Hmin).
     - intros P ev R E x Hx. unfold evs, all_end_events in E. apply (by_end_ordered _ _ _ _ _ E x Hx).
+    - intros k s1 e1 H. destruct (ae_props nc c d Hmin _ _ _ H). split; [lia|assumption]. }
+  rewrite He1 in Hle. lia.
+Qed.
+
+(* ---- greedy: the LONGEST occurrence ------------------------------------------------------ *)
+Theorem chain_greedy_end_choice_all_ends : forall nc c d,
+  snd c <> [] -> (forall r, In r (chain_res c) -> 1 <= min_len r) ->
+  chain_end_choice nc true c d (scan_chain_all_ends nc true false c d).
+Proof.
+  intros nc c d Htails Hmin y s Hy Hys.
+  unfold scan_chain_all_ends in Hy.
+  replace (map (vre false) (chain_res c)) with (chain_res c) in Hy by (unfold vre; symmetry; apply map_id).
+  set (n := length (snd c)) in *.
+  set (gp := fun i : nat => match nth_error (snd c) i with Some g => cgap_of (fst g) | None => GUnbounded 0 end).
+  set (pieces := pieces_of_chain true c) in *.
+  set (evs := all_end_events nc (chain_res c) d) in *.
+  destruct (chain_sound nc d c pieces (pieces_of_chain_shape true c) evs y
+              (fun id s0 e0 => all_end_events_sound nc (chain_res c) d id s0 e0) Hy) as [s1 [te [Hs1 [He1 HM]]]].
+  assert (s1 = s) by (rewrite Hys in Hs1; lia). subst s1.
+  exists te. split; [exact He1|]. split; [exact HM|].
+  intros e' HM'.
+  unfold join_chain in HM'. apply M_rcat_cons in HM'. destruct HM' as [e0 [Hh Hrest]].
+  assert (Hl0 : left gp evs 0 s e0 s).
+  { cbn [left]. split; [|reflexivity]. apply (all_end_events_complete nc (chain_res c) d 0 (fst c)); [reflexivity|exact Hh]. }
+  destruct (suffix_left nc c d (n - 0) 0 s e0 s e' eq_refl ltac:(lia) Hl0 Hrest) as [sn Hl].
+  assert (Hle : (N.of_nat e' <= m_end y)%N).
+  { apply (chain_greedy_longest pieces n gp true (n_pos c Htails)) with (evs := evs) (s0 := s) (s' := sn); try assumption; try reflexivity.
+    - apply (proj1 (pieces_of_chain_shape true c)).
+    - intros p Hp. unfold pieces in Hp. rewrite pieces_of_chain_head in Hp. inversion Hp. reflexivity.
+    - intros i p Hp. unfold pieces in Hp. rewrite pieces_of_chain_tail in Hp. unfold gp.
+      destruct (nth_error (snd c) i); cbn [option_map] in Hp; [|discriminate]. inversion Hp. reflexivity.
+    - intros id p Hp. destruct id as [|i]; unfold pieces in Hp.
+      + rewrite pieces_of_chain_head in Hp. inversion Hp. cbn [cp_last]. pose proof (n_pos c Htails). symmetry. apply Nat.eqb_neq. unfold n. lia.
+      + rewrite pieces_of_chain_tail in Hp. destruct (nth_error (snd c) i); cbn [option_map] in Hp; [|discriminate].
+        inversion Hp. reflexivity.
+    - intros id p Hp. destruct id as [|i]; unfold pieces in Hp.
+      + rewrite pieces_of_chain_head in Hp. inversion Hp. reflexivity.
+      + rewrite pieces_of_chain_tail in Hp. destruct (nth_error (snd c) i); cbn [option_map] in Hp; [|discriminate].
+        inversion Hp. reflexivity.
+    - apply (ae_ordered nc c d Hmin).
     - intros k s1 e1 H. destruct (ae_props nc c d Hmin _ _ _ H). split; [lia|assumption]. }
   rewrite He1 in Hle. lia.
 Qed.
